@@ -292,7 +292,10 @@ def second_side_lists(ns, text):
         skip = 3
     for r in rows:
         toks = r.replace(':', '').split()[skip:]
-        out.append([int(_re.sub(r'[()]', '', t)) for t in toks])
+        try:
+            out.append([int(_re.sub(r'[()]', '', t)) for t in toks])
+        except ValueError:
+            return None          # an entry that is no agent number: not a file of the documented form
     return out
 
 
